@@ -23,6 +23,10 @@ func checkC02(c *Ctx) {
 	r024(c, "R02.4 proxy-error-inventory")
 	// in-flight requests are only cut off by the drain protocol's deadline (shared with C03)
 	r031(c, "R02.5 in-flight-requests-survive-until-drain-deadline")
+	// a redeploy keeps serving from the healthy balancers it already has (shared with C07/C01)
+	r074(c, "R02.6 redeploy-carries-over-healthy-balancers")
+	r012(c)
+	r171b(c)
 }
 
 // R02.1 deploy step order.
